@@ -39,9 +39,9 @@ CHECKS = {
  "C03": ("proof", "A+C", "Lean theorems over R about the matrix-exponential model of wigner_D built on kernel-certified exact generators; homomorphism by induction on l through the Clebsch-Gordan intertwiner wigner_3j(l,1,l+1) (kernel certificates: generator equivariance + Gram/surjectivity) + correspondence with wigner_D / D_from_* under both default dtypes",
          "Orthogonality, D(0)=1, D(g^-1)=D(g)^T for all angles and certified degrees (l <= 11); l=1 equals the rotation matrix; parity factor and direct-sum block structure; homomorphism D(g1 g2)=D(g1)D(g2) for ALL real angles (whenever the rotation matrices multiply, in particular for the angles compose_angles returns) proved for every l <= 8 at setup/quick (Props/C03Hom.lean) and l <= 11 in thorough (Props/C03HomExt.lean; WignerDHom up to l = 12), with its corollaries: D factors through SO(3), the four input forms agree, D_from_matrix and direct sums are multiplicative incl. the parity factor.",
          "Trusted: Lean kernel, Mathlib, torch.matrix_exp = exp. The homomorphism is proved per degree (two decide +kernel certificates per step l -> l+1: w3jCert l 1 (l+1) and gramCheck l 1 (l+1)); beyond l = 8 (quick) / 11 (thorough) it stays the named hypothesis WignerDHom of the `_partial` theorems. The correspondence check (homomorphism oracles on the real wigner_D, l <= 11, 1e-10, both dtypes) still runs every time and ties the proved model to the code.", "6 C03"),
- "C11": ("proof", "C", "Lean model of the S2/SO(3) grid transforms (DFT definition, discrete orthogonality of the alpha basis proved for all sizes, normalisation constants) + correspondence on coefficient bases",
-         "FFT path = dense path, alpha-orthogonality, inverse normalisation pairs and admissibility of completed resolutions proved for all sizes; the round trip is reduced to one explicit quadrature hypothesis checked numerically per configuration (partial).",
-         "Trusted: Lean kernel, Mathlib, torch.fft = DFT. Kostelec-Rockmore beta-quadrature exactness is a hypothesis (checked numerically).", "6 C11"),
+ "C11": ("proof", "A+C", "Lean model of the S2/SO(3) grid transforms (DFT definition, discrete orthogonality of the alpha basis proved for all sizes, normalisation constants); Kostelec-Rockmore exactness of _quadrature_weights on polynomials of degree < 2b in cos(beta) proved for ALL b; the Legendre factor regenerated on every run from the FX graph of o3.Legendre (translator T5) with kernel certificates (decide +kernel) of its orthonormality; correspondence on coefficient bases",
+         "FFT path = dense path, alpha-orthogonality, inverse normalisation pairs, admissibility of completed resolutions and exactness of the beta quadrature proved for all sizes; FromS2Grid∘ToS2Grid = id, ToS2Grid∘FromS2Grid = id on band-limited signals, truncation/padding between band limits and S2Activation with a linear activation proved WITHOUT hypothesis for every lmax <= 11, every admissible resolution (res_beta = 2b >= 2(lmax+1), res_alpha >= 2 lmax + 1, both code paths), the three normalisations and every coefficient vector (Props/C11Leg.lean); beyond lmax = 11 the round trip keeps the named hypothesis KRExact (checked numerically per configuration); SO3Grid round trip from grid orthonormality of D (hypothesis, checked numerically).",
+         "Trusted: Lean kernel, Mathlib, torch.fft = DFT, translator T5 (an interpreter for the 8 FX ops o3.Legendre emits; the lifted table is compared with the running module on the grid each run, 1e-11) and its lifting of float coefficients to (n/d)sqrt(r)/sqrt(pi). That P*sha are the spherical harmonics of the grid points (ToS2Grid = evaluation of the signal) is checked on the real code against o3.spherical_harmonics, not proved.", "6 C11"),
  "C18": ("proof", "C", "Lean theorems (linearity, rotation invariance of signal evaluation from equivariance+orthogonality, interpolation algebra, irreps formula) + oracles on the real SphericalTensor",
          "Algebraic clauses proved for all sizes with spherical harmonics as an abstract equivariant map (C05); signal_on_grid, with_peaks_at, sum_of_diracs, norms compared on the real code. find_peaks has no model (exercised only).",
          "find_peaks (scipy peak search) is not applicable to this technique: exercised near poles, nothing proved.", "6 C18"),
